@@ -54,7 +54,7 @@ def second(w1):
 def diff(w1, w2):
     lines = list(difflib.unified_diff(w1.splitlines(), w2.splitlines(),
                                       "W1", "W2", lineterm="", n=1))
-    return "\n".join(lines[:40])
+    return "\n".join(lines)
 
 
 def judge(src):
@@ -71,12 +71,13 @@ def judge(src):
                 f"{type(err).__name__}: {str(err)[:300]}", w1)
     if w1 != w2:
         dtxt = diff(w1, w2)
-        changed = [ln[1:].strip() for ln in dtxt.splitlines()
-                   if ln[:1] in "+-" and ln[:3] not in ("+++", "---")]
+        signed = [(ln[0], ln[1:].strip()) for ln in dtxt.splitlines()
+                  if ln[:1] in "+-" and ln[:3] not in ("+++", "---")]
+        changed = [txt for _, txt in signed]
         kinds = sorted({classify_line(ln) for ln in changed})
         return ("fail", "unstable:" + "+".join(kinds),
-                "second write differs from the first:\n" + dtxt, w1,
-                changed)
+                "second write differs from the first:\n" +
+                "\n".join(dtxt.splitlines()[:40]), w1, signed)
     return ("ok", w1)
 
 
@@ -121,25 +122,68 @@ def access_sets(text):
     return sorted(out, key=str)
 
 
-def cls_where_leaks_widx(case):
-    """The source has a WHERE and the only unstable lines are declarations
-    of PSyclone's WHERE loop variables (widxN): the reader creates them
-    before it gives up on an unsupported WHERE (kept as a CodeBlock), so
-    every round trip adds another unused declaration."""
+def _strip_brackets(text):
     import re
-    lines = case.get("changed_lines") or []
-    return case.get("bucket") == "unstable:declaration" and \
-        "where" in case.get("source", "").lower() and bool(lines) and \
-        all(re.fullmatch(r"integer :: widx\d+(_\d+)?", ln) for ln in lines)
+    return re.sub(r"[()\s]", "", text)
+
+
+def explain_changes(case):
+    """Attribute every changed line (from the unified diff: '-' = only in
+    W1, '+' = only in W2) to a known root cause. Returns a set of cause
+    names, or None if some line is not explained.
+      widx:    declarations of WHERE loop variables / CodeBlock reason
+               comments that quote such a variable
+      bracket: the W1 and W2 versions of a line differ only in brackets
+               around signed operands (unary-minus bracketing defects of
+               the writer, shared with C02-b/c/d)"""
+    import re
+    signed = case.get("changed_signed") or []
+    causes = set()
+    minus, plus = [], []
+    for sign, text in signed:
+        if re.fullmatch(r"integer :: widx\d+(_\d+)*", text) or \
+                (text.startswith("!") and "widx" in text):
+            causes.add("widx")
+        elif sign == "-":
+            minus.append(text)
+        else:
+            plus.append(text)
+    if minus or plus:
+        if sorted(_strip_brackets(t) for t in minus) != \
+                sorted(_strip_brackets(t) for t in plus):
+            return None
+        if not any(re.search(r"-\s*\(?\s*-|\(-|-\d", t)
+                   for t in minus + plus):
+            return None
+        causes.add("bracket")
+    return causes or None
+
+
+def cls_where_leaks_widx(case):
+    """The source has a WHERE and the unstable lines are declarations of
+    PSyclone's WHERE loop variables (widxN) or CodeBlock comments quoting
+    them: the reader creates the variables before it gives up on an
+    unsupported WHERE (kept as a CodeBlock), so every round trip adds
+    another unused declaration."""
+    causes = explain_changes(case)
+    return case.get("bucket", "").startswith("unstable:") and \
+        "where" in case.get("source", "").lower() and \
+        causes is not None and "widx" in causes
 
 
 def cls_double_sign(case):
     """The source applies unary minus/plus directly to a negative literal
     or to another unary operator: written as '--x' / '- -x' (C02 unary
-    operator bracket defect), which fparser cannot re-read."""
+    operator bracket defect), which fparser cannot re-read or which is
+    bracketed differently on the second write."""
     import re
-    return case.get("bucket", "").startswith("reread:FortranSyntaxError") \
-        and bool(re.search(r"[-+]\s*\(\s*-", case.get("source", "")))
+    if not re.search(r"[-+*/]\s*\(\s*-", case.get("source", "")):
+        return False
+    if case.get("bucket", "").startswith("reread:FortranSyntaxError"):
+        return True
+    causes = explain_changes(case)
+    return case.get("bucket", "").startswith("unstable:") and \
+        causes is not None and "bracket" in causes
 
 
 CLASSIFIERS = {"access_statement_order": cls_access_order,
@@ -160,7 +204,7 @@ def handle(ctx, src, label, shrinkable):
         return
     case = {"source": src, "origin": label}
     if len(got) > 4:
-        case["changed_lines"] = got[4]
+        case["changed_signed"] = [list(x) for x in got[4]]
     if got[1] == "unstable:access_stmt":
         try:
             case["same_access_sets"] = \
